@@ -272,6 +272,31 @@ func genSlow(rng *rand.Rand) SlowScenario {
 	return sc
 }
 
+// driverLine: the scenario as a schedule of the model: one writer, one lossy subscriber whose consumer only
+// receives (`R`) at the end of each window
+func (sc SlowScenario) driverLine() string {
+	base := Scenario{Res: sc.Res, Init: sc.Init, Writers: [][]WOp{sc.Ops}}
+	var sched []string
+	if sc.Late == 0 {
+		sched = append(sched, "s0")
+	}
+	done := 0
+	for _, size := range sc.Windows {
+		for i := 0; i < size && done < len(sc.Ops); i++ {
+			sched = append(sched, "c0", "n0", "d0")
+			done++
+			if sc.Late != 0 && done == sc.Late {
+				sched = append(sched, "s0")
+			}
+		}
+		sched = append(sched, "R")
+	}
+	line := base.driverLine(nil)
+	f := strings.Fields(line)
+	// run <init> <progs> <subs> <sched>
+	return fmt.Sprintf("run %s %s %s1n %s", f[1], f[2], b01(sc.UO), strings.Join(sched, ","))
+}
+
 func slowMonitor(f lib.Flags, res *lib.Result, rng *rand.Rand) {
 	mon := res.Monitor("converges-lossy-slow-consumer",
 		"single writer + one LOSSY subscriber whose consumer pauses for a window of k writes and then drains (marker write per window): every sequence over {write, delete} of one id up to length 5 (add, update, delete, re-add, delete-missing), both initial states, one or two windows, seeded / updates-only / late subscribe, plus random sequences on 1-2 ids with compare-and-set; view folded after the last drain vs Get/List; deterministic, so any stale view is a violation")
@@ -279,6 +304,28 @@ func slowMonitor(f lib.Flags, res *lib.Result, rng *rand.Rand) {
 	for i := 0; i < f.N(300, 4000); i++ {
 		all = append(all, genSlow(rng))
 	}
+	tie := res.Tie("slow-lossy-model", "K1",
+		"the slow-lossy-consumer scenarios as schedules of the model with its merge stage (deliveries accumulate in the pending list, `R` = the consumer drains at the end of a window): store and the subscriber's view after the last drain vs run(model); non-trivial = some window holds more than one write")
+	var lines, codes []string
+	var inputs []any
+	var nontriv []bool
+	defer func() {
+		drv, err := lib.StartDriver(f.Driver)
+		if err != nil {
+			tie.Fail(err)
+			return
+		}
+		answers, err := drv.Batch(lines)
+		drv.Close()
+		if err != nil {
+			tie.Fail(err)
+			return
+		}
+		for i := range lines {
+			uo := strings.Contains(lines[i], " 11n ")
+			tie.Record(lines[i], nontriv[i], inputs[i], stripModel(answers[i], func(int) bool { return !uo }), codes[i])
+		}
+	}()
 	for _, sc := range all {
 		r := runSlow(sc)
 		multi := false
@@ -289,8 +336,19 @@ func slowMonitor(f lib.Flags, res *lib.Result, rng *rand.Rand) {
 		}
 		mon.Eval(sc.key(), multi, nil)
 		mon.Count(fmt.Sprintf("%s/len%d", sc.Res, len(sc.Ops)))
+		in := map[string]any{"mode": "lossy-slow", "res": sc.Res, "init": sc.Init, "ops": sc.Ops, "windows": sc.Windows, "uo": sc.UO, "late": sc.Late}
 		if v := judgeSlow(sc, r); v != nil {
-			mon.Violate(v.sig, v.what, map[string]any{"mode": "lossy-slow", "res": sc.Res, "init": sc.Init, "ops": sc.Ops, "windows": sc.Windows, "uo": sc.UO, "late": sc.Late}, v.expected, v.observed)
+			mon.Violate(v.sig, v.what, in, v.expected, v.observed)
+		}
+		if r.timeout == "" {
+			vw := showView(r.view)
+			if sc.UO {
+				vw = "?"
+			}
+			lines = append(lines, sc.driverLine())
+			codes = append(codes, "store="+showView(r.contents)+"|S0=live:"+vw)
+			inputs = append(inputs, in)
+			nontriv = append(nontriv, multi)
 		}
 	}
 }
